@@ -92,6 +92,9 @@ def ground_truth(args, truth_file):
         **_default_options(node=original_node, search=search, type_wanted=type_wanted)()
     )
 
+    # The source of truth is never rewritten by a sync that names it as truth
+    true_filename = path.realpath(path.expanduser(truth_file))
+
     effect = OrderedDict()
     # filter(lambda arg: arg != args.truth, arg2parse_emit_type.keys()):
     for fun_name, (parse_func, emit_func, type_wanted) in arg2parse_emit_type.items():
@@ -106,7 +109,9 @@ def ground_truth(args, truth_file):
 
         effect.update(
             map(
-                lambda filename: _conform_filename(
+                lambda filename: (path.realpath(path.expanduser(filename)), False)
+                if path.realpath(path.expanduser(filename)) == true_filename
+                else _conform_filename(
                     filename=filename,
                     search=search,
                     emit_func=emit_func,
